@@ -440,7 +440,7 @@ def replay(ctx, path):
     exe, blog = vlib.go_build(ctx)
     if exe and case.get("kind") == "lut":
         lines = vlib.run_driver(ctx, exe, ["-n", 0, "-seed", 1, "-bo", tinfo["bo"]])
-        cur = [l for l in lines if "corpus" in l.get("tags") or []]
+        cur = [l for l in lines if "corpus" in (l.get("tags") or [])]
         if cur and "corpus" in case.get("tags") or []:
             failing, _ = vlib.coq_eval_cases(ctx, CFG["imports"], "(check_case env)", [cur[0]["coq"]], extra_q=gq)
             print("same input on the current tree -> %s" % ("agree=true ok=true" if not failing else "agree=%s ok=%s" % (failing[0][1], failing[0][2])))
